@@ -107,6 +107,18 @@ pub fn check_case(c: &RedirCase, obs: &mut Obs) -> Result<(), String> {
 fn check_with(c: &RedirCase, obs: &mut Obs, ask: &dyn Fn(&adblock::request::Request) -> Verdict, how: &str, res: &[Resource]) -> Result<(), String> {
     let res: Vec<Resource> = res.to_vec();
     let parsed = parse_network(&c.rules);
+    // the resource (and priority suffix) a redirect rule names is the text after `redirect=` /
+    // `redirect-rule=` as written - read from the rule text, independently of the parser
+    for p in &parsed {
+        let opts = p.line.trim().rsplit_once('$').map(|x| x.1).unwrap_or("");
+        let written: Vec<&str> = opts.split(',').filter_map(|o| o.strip_prefix("redirect=").or_else(|| o.strip_prefix("redirect-rule="))).collect();
+        if written.len() == 1 && p.f.is_redirect() && p.f.modifier_option.as_deref() != Some(written[0]) {
+            return Err(format!("rule {:?}: redirect option as written {:?}, parsed as {:?}", p.line, written[0], p.f.modifier_option));
+        }
+        if written.len() == 1 && !written[0].is_empty() && !p.f.is_redirect() {
+            return Err(format!("rule {:?} carries a redirect option but is not parsed as a redirect rule", p.line));
+        }
+    }
     let active = active_rules(&parsed);
     let tags = HashSet::new();
     for r in &c.reqs {
